@@ -1186,6 +1186,31 @@ class Oracle(object):
                     self.add("reload-converges", "%s/content" % key, step, op, name=n)
 
 
+def save_outside_model(font, files):
+    """The two situations in which the model answers a save with `outside-the-modelled-domain` (mirrors
+    `Ext.replayHazard` and the layer-contents check of `Ext.save`): replaying the layer history would move a glyph
+    directory onto the occupied default directory (finding F37), or the UFO holds a layer the font does not.
+    Implementation and model then both print `save-failed` and nothing is compared any more."""
+    lc = xc.layer_contents(files)
+    names = [n for n, _ in lc]
+    default = xc.default_layer(files)
+    for a in font.layers._layerActionHistory:
+        if a["action"] == "delete":
+            if a["name"] in names:
+                names.remove(a["name"])
+                if default == a["name"]:
+                    default = None
+        elif a["action"] == "default":
+            new, old = a["newDefault"], a["oldDefault"]
+            if old is not None and default == old:
+                default = None
+            if new in names:
+                if default is not None and default != new:
+                    return True
+                default = new
+    return any(n not in font.layers.layerOrder for n in names)
+
+
 def expected_read(oracle, op):
     """for a lazy read: the bytes the font's reader view holds for it (None: the oracle does not judge)"""
     impl = oracle.impl
@@ -1237,6 +1262,7 @@ def run_impl(case):
                 in_keys = op[1] in before["dat_names"]
             exp_bytes = expected_read(oracle, op) if k in ("gget", "imgget", "datget") else None
             files_before = impl.files
+            outside_model = k == "save" and save_outside_model(font, impl.files)
             stale_default_before = oracle.stale_default
             mem_deleted_before = set(oracle.mem_deleted_layers)
             status, result = impl.do(op)
@@ -1347,7 +1373,7 @@ def run_impl(case):
                                        order=False, defaultLayer=False), images=dict(modified=[], added=[]),
                            data=dict(modifiedData=[], addedData=[]))
                 oracle.judge_reload(i, op, rep)
-            if k == "save" and st != "ok":
+            if k == "save" and (st != "ok" or outside_model):
                 failed_save = True
                 outs.append([Atom("err"), Atom("save-failed")])
                 continue
@@ -1446,7 +1472,7 @@ class Sim(object):
         return self.t
 
     def layer(self, mem=True):
-        pool = self.mem_order if mem else self.disk_order
+        pool = self.mem_order if mem else ([n for n in self.disk_order if n in self.mem_order] or self.disk_order)
         pool = [l for l in pool if l not in self.frozen] or pool
         return self.rng.choice(pool)
 
@@ -1615,7 +1641,7 @@ class Sim(object):
             return [["xlorder", o, None]]
         # layer structure: directories appear, vanish or move; followed by a test at once (see ASSUMPTIONS)
         if r < 0.94:
-            free = [n for n in fg.LAYER_NAMES if n not in self.disk_order]
+            free = [n for n in fg.LAYER_NAMES if n not in self.disk_order and n not in self.mem_deleted and n not in self.mem_order]
             if not free:
                 return []
             n = rng.choice(free)
@@ -1648,6 +1674,7 @@ class Sim(object):
         if rng.random() < 0.9:
             ops += [["reload"], ["acceptdel"]]
             self.after_reload()
+            self.after_accept()
         else:
             self.frozen |= set(layers)
             self.no_save = True
@@ -1671,6 +1698,18 @@ class Sim(object):
         self.mem_dat |= self.disk_dat
         if self.disk_default in self.mem_order:
             self.mem_default = self.disk_default
+
+    def after_accept(self):
+        """acceptdel deletes in memory the layers (and glyphs) the UFO no longer has; a layer deleted that way is one
+        the font 'deleted itself': should it appear again on disk, the test will not report it"""
+        for n in list(self.mem_order):
+            if n not in self.disk_order and n != self.mem_default:
+                self.mem_order.remove(n)
+                self.mem_layers.pop(n, None)
+                self.mem_deleted.add(n)
+        for n in self.mem_order:
+            if n in self.disk_layers:
+                self.mem_layers[n] &= self.disk_layers[n] | (self.mem_layers[n] - self.disk_layers[n])
 
     # ----- probes ------------------------------------------------------------------------------------
 
@@ -1880,9 +1919,10 @@ def gen_case(rng, tier):
             # F. reload what was reported / accept deletions, G. second test
             if rng.random() < 0.85:
                 ops.append(["reload"])
+                sim.after_reload()
                 if rng.random() < 0.8:
                     ops.append(["acceptdel"])
-                sim.after_reload()
+                    sim.after_accept()
                 ops.append(["test"])
                 # H. the font stays usable
                 if rng.random() < 0.7:
@@ -1906,9 +1946,10 @@ def gen_case(rng, tier):
                 ops.append(["test"])
             elif r < 0.93:
                 ops += [["test"], ["reload"]]
+                sim.after_reload()
                 if rng.random() < 0.5:
                     ops.append(["acceptdel"])
-                sim.after_reload()
+                    sim.after_accept()
             elif r < 0.96:
                 ops += sim.save()
             elif r < 0.98:
